@@ -272,7 +272,12 @@ def case_recycled(ctx, case):
         ctx.count('deep_copied_models_compared')
         if b_model.random.getstate() != state_b:
             raise CaseViolation('random picks in a deep copy of a model advanced the generator of the original model', world=kind, seed=seed_b)
-        if got_c != draws(twin_copy.environment, k) or draws(w, k) != draws(tw, k):
+        orig_next, twin_next = draws(w, k), draws(tw, k)
+        if got_c != orig_next:
+            # (the copy was taken AFTER the original had drawn: it carries the generator's state, not just its seed)
+            raise CaseViolation('a deep copy of a model whose generator had already advanced does not continue where the original stood: its '
+                                'next draws differ from the draws the original makes next', world=kind, seed=seed_b, copy_draws=got_c[:4], original_draws=orig_next[:4])
+        if got_c != draws(twin_copy.environment, k) or orig_next != twin_next:
             raise CaseViolation('a model and a deep copy of it do not both continue with the draws their seed prescribes', world=kind, seed=seed_b)
     ctx.distinct(('recycled', case['i']))
 
